@@ -161,27 +161,76 @@ def _channel_counts(f, names):
 
 def rule_backends(P):
     r = Rule("C05-backends", "K6/K7", "backend add/del twins: epoll change record, poll bits and slot release, select sets, bound and channel symmetry", floor=80)
-    # ---- epoll_nochangelist_add/del: evaluate the record handed to epoll_apply_one_change
-    for name, kind in (("epoll_nochangelist_add", ADD), ("epoll_nochangelist_del", DEL)):
+    # ---- epoll_nochangelist_add/del: evaluate the record handed to epoll_apply_one_change (through static helpers, if any)
+    slots = P.slots()
+    plain = {"add": [n for n in slots.get("eventop.add", ()) if n.startswith("epoll_") and "changelist" in n and n != "event_changelist_add_"],
+             "del": [n for n in slots.get("eventop.del", ()) if n.startswith("epoll_") and "changelist" in n and n != "event_changelist_del_"]}
+    epfile = set(x.name for x in P.fns_in("epoll.c"))
+
+    def rec_hook(depth):
+        def hook(el, e_):
+            n = callee_name(el.e)
+            if n == "epoll_apply_one_change":
+                a = strip(el.e[2][2])
+                tgt = strip(a[1]) if is_e(a, "addr") else None
+                if tgt is None:
+                    return "impure"
+                rec = {}
+                for c_ in ("read_change", "write_change", "close_change", "old_events", "fd"):
+                    rec[c_] = e_.get(nkey(["fld", tgt, "event_change." + c_, "."]))
+                e_["#rec"] = tuple(sorted(rec.items()))
+                return 0
+            if n in epfile and depth < 3 and P.has(n):
+                g = P.fn(n)
+                env2 = {}
+                for (pn, pt), a in zip(g.params, el.e[2]):
+                    try:
+                        env2[pn] = evalx(normx(a), e_, P)
+                    except EvalError:
+                        env2[pn] = 1 if "*" in pt else None
+                        if env2[pn] is None:
+                            del env2[pn]
+                alts = []
+                for o in run_all(g, (g.entry, 0), env2, lambda x: False, P, rec_hook(depth + 1)):
+                    if o.kind == "unknown":
+                        return "impure"
+                    rv = None
+                    if o.kind == "ret" and len(o.at.e) > 1 and o.at.e[1]:
+                        try:
+                            rv = evalx(normx(o.at.e[1]), o.env, P)
+                        except EvalError:
+                            rv = None
+                    alts.append((rv, {"#rec": o.env.get("#rec")}))
+                return alts or None
+            return None
+        return hook
+
+    for kind_name, kind in (("add", ADD), ("del", DEL)):
+        if len(plain[kind_name]) != 1:
+            r.brk("plain epoll %s slot function not identified: %s" % (kind_name, plain[kind_name]))
+            continue
+        name = plain[kind_name][0]
         f = P.fn(name)
         oldp, evp = f.params[2][0], f.params[3][0]
-        chv = ["var", "ch", "local"]
         nbad = 0
         for old in (0, R_, R_ | W_ | C_):
             for evbits in [a | b | c | d for a in (0, R_) for b in (0, W_) for c in (0, C_) for d in (0, ET_)]:
-                env = {f.params[1][0]: 7, oldp: old, evp: evbits}
-                stop = lambda el: el.e[0] == "call" and callee_name(el.e) == "epoll_apply_one_change"
-                for o in run_all(f, (f.entry, 0), env, stop, P, lambda el, e_: None):
-                    if o.kind != "stop":
-                        r.brk("%s: does not reach epoll_apply_one_change (%s %s)" % (name, o.kind, o.why))
+                env = {f.params[0][0]: 1, f.params[1][0]: 7, oldp: old, evp: evbits}
+                for o in run_all(f, (f.entry, 0), env, lambda el: False, P, rec_hook(0)):
+                    if o.kind == "unknown":
+                        r.brk("%s: %s" % (name, o.why))
                         return r
-                    got = {c: o.env.get(nkey(["fld", chv, "event_change." + c, "."])) for c in ("read_change", "write_change", "close_change", "old_events", "fd")}
+                    rec = o.env.get("#rec")
+                    if rec is None:
+                        r.brk("%s: does not reach epoll_apply_one_change" % name)
+                        return r
+                    got = dict(rec)
                     want = {"read_change": (kind | (evbits & ET_)) if evbits & R_ else 0, "write_change": (kind | (evbits & ET_)) if evbits & W_ else 0,
                             "close_change": (kind | (evbits & ET_)) if evbits & C_ else 0, "old_events": old, "fd": 7}
                     r.inst((name, old, evbits), {"fn": name, "old": hex(old), "events": hex(evbits), "record": got})
                     if got != want and nbad < 2:
                         nbad += 1
-                        r.bad("K6:%s:change-record" % name, "%s:%d" % (f.file, f.line), name, "old=%#x events=%#x: record %s, expected %s" % (old, evbits, got, want))
+                        r.bad("K6:%s:change-record" % name, "%s:%d" % (f.file, f.line), name, "old=%#x events=%#x: record %s, expected %s (each requested channel carries %s plus the ET bit of the request)" % (old, evbits, got, want, "ADD" if kind == ADD else "DEL"))
     # ---- poll_add / poll_del
     POLL = {R_: 0x001, W_: 0x004, C_: 0x2000}
     for name in ("poll_add", "poll_del"):
